@@ -14,7 +14,7 @@ import (
 
 func init() {
 	Registry["C02"] = Set{
-		Explanation: "Decides the structural clauses of local delivery: D1 every successful push on a process/meta mailbox queue is followed on every path by a wake-up of the same process object; D2 the branch taken when the push is refused never returns nil and the accepted branch never returns an error constant, lookups that fail return an error before any push; D3 after the runner's release transition (CAS Running->Sleep / Unlock) every path to return has seen every queue of the mailbox empty or re-acquires (no lost wake-up, Dekker ordering against D1); D4 the fallback re-route wraps the refused target's pid, its tag and the original message and is guarded by Enable and Name != own name; D5 SendAfter hands back the Stop of the very timer whose callback performs exactly one route call. Added while probing: D6 a push that was refused releases or reroutes its mailbox message exactly once; D7 every QueueMPSC.Push returns true only after the item was linked and false without touching the list; D8 the alive predicate accepts exactly Init, Sleep, Running, WaitResponse; D9 each Route* builds the mailbox message from its own arguments (From, Message, Type, and Ref for calls); D3 also covers the network receive producer: the frame is pushed before the queue lock is tried and the lock is tried after every push. D10 the functions that deliver a message, request, inspect request or forwarded message into another process's mailbox push only behind the true edge of that process's alive predicate (exit/event/log helpers are listed exemptions). D11 inside one function a released mailbox message is neither released again nor handed on (forward data flow of the set of released SSA values, through phi nodes, killed at re-definition).",
+		Explanation: "Decides the structural clauses of local delivery: D1 every successful push on a process/meta mailbox queue is followed on every path by a wake-up of the same process object; D2 the branch taken when the push is refused never returns nil and the accepted branch never returns an error constant, lookups that fail return an error before any push; D3 after the runner's release transition (CAS Running->Sleep / Unlock) every path to return has seen every queue of the mailbox empty or re-acquires (no lost wake-up, Dekker ordering against D1); D4 the fallback re-route wraps the refused target's pid, its tag and the original message and is guarded by Enable, by Name != own name and by a test that this process has not redirected the message before (the nested wrappers carry the pids; without it two full processes that are each other's fallback recurse until the stack overflows) — and by nothing else; D5 SendAfter hands back the Stop of the very timer whose callback performs exactly one route call, and that call is not made through a method that refuses by the state of the originating process; the callback has an arm for every kind of target the immediate Send has one for. Added while probing: D6 a push that was refused releases or reroutes its mailbox message exactly once; D7 every QueueMPSC.Push returns true only after the item was linked and false without touching the list; D8 the alive predicate accepts exactly Init, Sleep, Running, WaitResponse; D9 each Route* builds the mailbox message from its own arguments (From, Message, Type, and Ref for calls); D3 also covers the network receive producer: the frame is pushed before the queue lock is tried and the lock is tried after every push. D10 the functions that deliver a message, request, inspect request or forwarded message into another process's mailbox push only behind the true edge of that process's alive predicate (exit/event/log helpers are listed exemptions). D11 inside one function a released mailbox message is neither released again nor handed on (forward data flow of the set of released SSA values, through phi nodes, killed at re-definition).",
 		NotDecided: []string{
 			"linearizability of the lock-free MPSC queue under concurrent producers",
 			"exactly-once on the consumer side (one handler call per popped message)",
@@ -1305,6 +1305,20 @@ func c02Fallback(a *Anchors, r *core.Report, pushes []mailboxPush) {
 			}
 		})
 		for i, cell := range cells {
+			// a wrapper that is BUILT here (its fields are assigned), not one that is unpacked
+			built := false
+			for _, rf := range *cell.Referrers() {
+				if fa, ok := rf.(*ssa.FieldAddr); ok {
+					for _, rr := range *fa.Referrers() {
+						if st, ok := rr.(*ssa.Store); ok && st.Addr == ssa.Value(fa) {
+							built = true
+						}
+					}
+				}
+			}
+			if !built {
+				continue
+			}
 			fn := fname(f)
 			key := fmt.Sprintf("C02.D4|%s#%d", fn, i+1)
 			pos := a.P.Pos(cell.Pos())
@@ -1461,6 +1475,40 @@ func c02Fallback(a *Anchors, r *core.Report, pushes []mailboxPush) {
 			if !routed {
 				probs = append(probs, "the wrapper is not routed to the process named fallback.Name of the refused target")
 			}
+			// nothing else decides whether the refused message is redirected: between the refusal
+			// edge and the wrapper every branch tests the target's fallback configuration
+			// (fallback.Enable, fallback.Name against its own name) and nothing about the message
+			{
+				_, fl, _ := boolEdges(mp.Result)
+				cycleTested := false
+				seenB := map[*ssa.BasicBlock]bool{}
+				var work []*ssa.BasicBlock
+				for _, e := range fl {
+					work = append(work, e.To())
+				}
+				for len(work) > 0 {
+					b := work[len(work)-1]
+					work = work[:len(work)-1]
+					if seenB[b] || b == cell.Block() {
+						continue
+					}
+					seenB[b] = true
+					if len(b.Instrs) == 0 {
+						continue
+					}
+					if iff, ok := b.Instrs[len(b.Instrs)-1].(*ssa.If); ok && b.Dominates(cell.Block()) {
+						if isFallbackCycleTest(iff.Cond) {
+							cycleTested = true
+						} else if !derivesFromFallbackConfig(iff.Cond, 0) {
+							probs = append(probs, "the redirect also depends on "+iff.Cond.String()+" at "+a.P.Pos(iff.Cond.Pos())+": a refused message can be left undelivered although a fallback is configured")
+						}
+					}
+					work = append(work, b.Succs...)
+				}
+				if !cycleTested {
+					probs = append(probs, "no test whether this process has redirected the message before: fallback processes that refer to each other and are all full hand the message round until the stack overflows (a fatal error: the node dies)")
+				}
+			}
 			if len(probs) > 0 {
 				r.Bad(rule, key, fn, pos, "fallback wrapper carries the refused target's pid, its tag and the original message, guarded and routed by name", strings.Join(probs, "; "))
 			} else {
@@ -1468,6 +1516,73 @@ func c02Fallback(a *Anchors, r *core.Report, pushes []mailboxPush) {
 			}
 		}
 	}
+}
+
+// isFallbackCycleTest: the condition is the result of a function given (the refused target's pid, the
+// message) that walks the nested gen.MessageFallback wrappers and compares their PID with that pid.
+func isFallbackCycleTest(v ssa.Value) bool {
+	if b, ok := v.(*ssa.BinOp); ok {
+		if _, isC := b.Y.(*ssa.Const); isC {
+			v = b.X
+		}
+	}
+	c, ok := v.(*ssa.Call)
+	if !ok {
+		return false
+	}
+	g := staticCallee(c.Common())
+	if g == nil || len(g.Blocks) == 0 || len(g.Params) != 2 || len(c.Common().Args) != 2 {
+		return false
+	}
+	if _, path, okp := fieldPath(c.Common().Args[0]); !okp || len(path) == 0 || path[len(path)-1] != "pid" {
+		return false
+	}
+	hit := false
+	eachInstr(g, func(in ssa.Instruction) {
+		b, ok := in.(*ssa.BinOp)
+		if !ok || b.Op != token.EQL {
+			return
+		}
+		for _, pr := range [][2]ssa.Value{{b.X, b.Y}, {b.Y, b.X}} {
+			if !isParamValue(pr[0], g.Params[0]) && pr[0] != ssa.Value(g.Params[0]) {
+				continue
+			}
+			if _, path, okp := fieldPath(pr[1]); okp && len(path) > 0 && path[len(path)-1] == "PID" {
+				hit = true
+			}
+			if fv, ok := pr[1].(*ssa.Field); ok {
+				if st, ok := fv.X.Type().Underlying().(*types.Struct); ok && st.Field(fv.Field).Name() == "PID" {
+					hit = true
+				}
+			}
+		}
+	})
+	return hit
+}
+
+// derivesFromFallbackConfig: the condition is built from the fields fallback.* / name of a process only.
+func derivesFromFallbackConfig(v ssa.Value, d int) bool {
+	if d > 5 {
+		return false
+	}
+	switch x := v.(type) {
+	case *ssa.Const:
+		return true
+	case *ssa.BinOp:
+		return derivesFromFallbackConfig(x.X, d+1) && derivesFromFallbackConfig(x.Y, d+1)
+	case *ssa.UnOp:
+		if _, path, ok := fieldPath(x); ok && len(path) > 0 {
+			j := strings.Join(path, ".")
+			return strings.HasPrefix(j, "fallback.") || j == "name"
+		}
+		return derivesFromFallbackConfig(x.X, d+1)
+	case *ssa.FieldAddr:
+		if _, path, ok := fieldPath(x); ok && len(path) > 0 {
+			j := strings.Join(path, ".")
+			return strings.HasPrefix(j, "fallback.") || j == "name"
+		}
+	}
+	return false
 }
 
 func stripIface(v ssa.Value) ssa.Value {
@@ -1643,6 +1758,71 @@ func c02SendAfter(a *Anchors, r *core.Report) {
 			if arms == 0 {
 				if ret := reaches([]Point{{cl.Blocks[0], 0}}, isRoute, isReturn); ret != nil {
 					probs = append(probs, "the timer callback has a path that sends nothing")
+				}
+			}
+			// the callback recognises every kind of target the immediate Send recognises (the two
+			// type switches are siblings): a kind that only Send knows is accepted by SendAfter —
+			// it returns a cancel function and no error — and then never sent
+			if sendF := a.P.Func("node", a.ProcessT.Obj().Name(), "Send"); sendF != nil && arms > 0 {
+				kinds := func(g *ssa.Function) map[string]bool {
+					out := map[string]bool{}
+					eachInstr(g, func(x ssa.Instruction) {
+						if ta, ok := x.(*ssa.TypeAssert); ok && ta.CommaOk {
+							out[ta.AssertedType.String()] = true
+						}
+					})
+					return out
+				}
+				have := kinds(cl)
+				for k := range kinds(sendF) {
+					if !have[k] {
+						probs = append(probs, "Send accepts a target of type "+k+", the delayed send has no arm for it: SendAfter reports success and the message is never sent")
+					}
+				}
+			}
+			// the send of the callback is unconditional: a route made through a method of the
+			// originating process must not be subject to that process's state test (Send* return
+			// ErrNotAllowed once the originator has terminated — the delayed message would never be sent)
+			for _, r1 := range routes {
+				sf := staticCallee(callCommon(r1))
+				if sf == nil || !recvIs(sf, a.ProcessT) || len(sf.Blocks) == 0 {
+					continue
+				}
+				stateTest := false
+				// the method and the process methods it dispatches to (Send -> SendPID ...)
+				family2 := []*ssa.Function{sf}
+				eachInstr(sf, func(x ssa.Instruction) {
+					if c2 := callCommon(x); c2 != nil {
+						if g := staticCallee(c2); g != nil && recvIs(g, a.ProcessT) && len(g.Blocks) > 0 && strings.HasPrefix(g.Name(), "Send") {
+							family2 = append(family2, g)
+						}
+					}
+				})
+				for _, sf := range family2 {
+					eachInstr(sf, func(x ssa.Instruction) {
+						c2 := callCommon(x)
+						if c2 == nil {
+							return
+						}
+						if g := staticCallee(c2); g != nil && recvIs(g, a.ProcessT) && (strings.HasPrefix(g.Name(), "isState") || g.Name() == "isAlive" || g.Name() == "State") {
+							if v, ok := x.(ssa.Value); ok {
+								t, fl, complete := boolEdges(v)
+								if complete {
+									for _, es := range [][]Edge{t, fl} {
+										for _, e := range es {
+											if rt, isRet := e.To().Instrs[len(e.To().Instrs)-1].(*ssa.Return); isRet && len(e.To().Instrs) <= 3 {
+												_ = rt
+												stateTest = true
+											}
+										}
+									}
+								}
+							}
+						}
+					})
+				}
+				if stateTest {
+					probs = append(probs, fmt.Sprintf("the callback sends through %s, which refuses by the state of the originating process: after the originator has terminated the delayed message is not sent at all", fname(sf)))
 				}
 			}
 			if len(probs) > 0 {
